@@ -254,12 +254,22 @@ impl<F: Fl, const SIB: bool, const L0: u8, const L1: u8> Prog for Add<F, SIB, L0
     }
 }
 
+/// forced-site loop over the producer's send into the full ring (DESIGN.md 4): at its k-th shared-memory
+/// operation add_stream runs and then (MIN = 2) the parent stream's consumer takes a value, k = LO..=HI
+pub fn add_stream_sites<const LO: u16, const HI: u16, const MIN: u8>(cap: u64, n: u8, pre_send: u8) {
+    let mut k: u16 = LO;
+    while k <= HI {
+        add_stream::<BcB, false, 0, 1, 2>(&LifeCfg { exact: true, cap, n, pre_send, pre_recv: 0, force_site: k, per_site: MIN, budget: MIN, ..LQ });
+        k += 1;
+    }
+}
+
 pub fn add_stream<F: Fl, const SIB: bool, const OUTER: usize, const L0: u8, const L1: u8>(c: &LifeCfg) {
     ledger::reset();
     payload::reset();
     sched::configure(c.depth, c.budget, c.kinds, c.per_site);
     if c.force_site != 0 {
-        sched::force(c.force_site, 1, [1; 4]);
+        sched::force(c.force_site, c.per_site, [1; 4]);
     }
     let mut w = World::<F>::new(c.cap);
     set_world::<F>(&mut *w);
@@ -923,6 +933,11 @@ life!(c03_bc_addstream_o0_n1, hk_c03_bc_addstream_o0_n1, Runner<Add<BcB, false, 
 life!(c10_bc_sib_o1, hk_c10_bc_sib_o1, Runner<Add<BcB, true, 2, 1>, 1>, add_stream::<BcB, true, 1, 2, 1>(&LifeCfg { budget: 3, per_site: 3, ..LQ }));
 // add_stream (always) and then, if the solver says so, the parent's receive run at the k-th shared-memory
 // operation of the producer's send into the full ring, for every k (the last k lie past the end of the send)
+life!(c03_bc_addstream_sitesq_a, hk_c03_bc_addstream_sitesq_a, Runner<Add<BcB, false, 1, 2>, 0>, add_stream_sites::<1, 8, 2>(1, 1, 1));
+life!(c03_bc_addstream_sitesq_b, hk_c03_bc_addstream_sitesq_b, Runner<Add<BcB, false, 1, 2>, 0>, add_stream_sites::<9, 16, 2>(1, 1, 1));
+life!(c03_bc_addstream_sitesq_c, hk_c03_bc_addstream_sitesq_c, Runner<Add<BcB, false, 1, 2>, 0>, add_stream_sites::<17, 24, 2>(1, 1, 1));
+life!(c10_bc_addstream_sitesq_a, hk_c10_bc_addstream_sitesq_a, Runner<Add<BcB, false, 1, 2>, 0>, add_stream_sites::<1, 12, 1>(2, 2, 2));
+life!(c10_bc_addstream_sitesq_b, hk_c10_bc_addstream_sitesq_b, Runner<Add<BcB, false, 1, 2>, 0>, add_stream_sites::<13, 24, 1>(2, 2, 2));
 // C11
 life!(c11_bc_drop_last_o1, hk_c11_bc_drop_last_o1, Runner<Rem<BcB, false>, 1>, remove_stream::<BcB, false, true, 1>(&LQ));
 life!(c11_bc_drop_last_o0, hk_c11_bc_drop_last_o0, Runner<Rem<BcB, false>, 0>, remove_stream::<BcB, false, true, 0>(&LifeCfg { per_site: 1, ..LQ }));
